@@ -107,6 +107,28 @@ def run_case(ctx, chi, m, sig, yb, ob, S, guard):
              core.close(pv, v) and core.close(ppw, pw) and core.close(ps1, s1) and
              (not math.isfinite(v) or core.close(pg, g)), {'model': m, 'sigma': sig, 'ybar': yb, 'obs': ob, 'S': S},
              {'fresh_object': v, 'reused_object': pv})
+    # the same error model behind chi.ReducedErrorModel with one parameter fixed at its value: score and
+    # sensitivities (mechanistic block of ANY width, then the free error parameters) must be those of
+    # the plain model
+    if ctx.cases % 3 == 0 and all(x > 0 for x in sig):
+        names = em.get_parameter_names()
+        kfix = int(ctx.cases // 3) % len(names)
+        red = chi.ReducedErrorModel(cls())
+        red.fix_parameters({names[kfix]: float(sig[kfix])})
+        free = [float(x) for j, x in enumerate(sig) if j != kfix]
+        keep = [True] * p + [j != kfix for j in range(len(sig))]
+        try:
+            with np.errstate(all='ignore'):
+                rs, rg = red.compute_sensitivities(free, yb, S, ob)
+                rv = red.compute_log_likelihood(free, yb, ob)
+            okr = core.close(float(rs), s1) and core.close(float(rv), v) and \
+                (not math.isfinite(v) or core.close(np.asarray(rg, float).flatten(), g[np.array(keep)]))
+            ctx.spec('C04.reduced_error_model/' + m, okr, {'model': m, 'sigma': sig, 'ybar': yb, 'obs': ob, 'S': S,
+                                                       'fixed': names[kfix]},
+                     {'reduced': np.asarray(rg, float).flatten(), 'plain_restricted': g[np.array(keep)]})
+        except Exception as e:  # noqa
+            ctx.spec('C04.reduced_error_model/' + m, False, {'model': m, 'sigma': sig, 'S_width': p,
+                                                       'fixed': names[kfix]}, {'raised': repr(e)[:200]})
     mv, mpw, mg = ctx.model('C04.em', m, list(sig), list(yb), list(ob), [list(r) for r in S])
     ctx.branches.add(m + ':' + core.fclass(mv))
     nontriv = n >= 2 and not np.all(yb == yb[0])
